@@ -268,7 +268,7 @@ PROPS = {
             dict(run=B + "VerifC05Fanout", name="C19_fanout", quick=dict(watches=2, events=2), thorough=dict(watches=3, events=3), covers=["some-filtered", "done"], race=True, race_replay=True, stress=10),
             dict(run="pkg/zzc19.VerifC19FullBatch", quick=dict(writes=301, _loop=700), thorough=dict(writes=601, _loop=1300), covers=["done"], race=True, race_replay=True, stress=5),
         ],
-        bounds=dict(quick="happens-before (vector clock) monitor over the explored schedules of: reader ∥ writer ∥ iterator on the in-memory engine (<= 2 delays); TTL expiry (timer goroutine) ∥ reader ∥ iterator (<= 1 delay); update ∥ {get, watch} / {list, count} / {compact, compact} on one node over the real in-memory adapter with the sequencer and fan-out threads in the schedule (<= 1 delay); one slow write holding the lowest pending revision while a full broadcast batch (300 events) of later writes completes, then one more write, with one watch (default schedule); the fan-out dropping an overflowing subscriber ∥ a new watch registering ∥ a watch being cancelled (<= 1 delay); the background repair loop ticking over one queued unknown-outcome write ∥ update on the same key ∥ compaction request ∥ point read, over the real in-memory engine (<= 1 delay); 2 watches with different prefixes forwarding one shared broadcast batch of 2 events; maps are one abstract location each",
+        bounds=dict(quick="happens-before (vector clock) monitor over the explored schedules of: reader ∥ writer ∥ iterator on the in-memory engine (<= 2 delays); TTL expiry (timer goroutine) ∥ reader ∥ iterator (<= 1 delay); update ∥ {get, watch} / {list, count} / {compact, compact} / {create of another key, delete} on one node over the real in-memory adapter with the sequencer and fan-out threads in the schedule (<= 1 delay); one slow write holding the lowest pending revision while a full broadcast batch (300 events) of later writes completes, then one more write, with one watch (default schedule); the fan-out dropping an overflowing subscriber ∥ a new watch registering ∥ a watch being cancelled (<= 1 delay); the background repair loop ticking over one queued unknown-outcome write ∥ update on the same key ∥ compaction request ∥ point read, over the real in-memory engine (<= 1 delay); 2 watches with different prefixes forwarding one shared broadcast batch of 2 events; maps are one abstract location each",
                     thorough="one more delay each; two full batches (601 writes)"),
         outside="Badger / TiKV client internals; the skiplist's internals (one abstract location per list); the Go memory model beyond happens-before; request mixes other than the listed ones; the election goroutine (the leader flag is written once when the node takes over)",
         assumptions=["the verdict is a happens-before computation on each explored schedule: the solver only decides which paths are feasible (weakest fit for the technique, see DESIGN.md C19)"],
